@@ -75,6 +75,11 @@ def dump_struct(v, p, out):
             out[p + "size"] = str(sz)
         elif sz is UNSPEC:
             out[p + "size"] = "UNSPEC"
+    # $max_size_in_* / $min_size_in_*: documented as bounds ("may not be exact"); exact only where the size is a
+    # compile-time constant.  The bound itself is judged per record by check_size_bounds().
+    st = refsem.static_struct_size(v.s)
+    out[p + "maxsize"] = str(st) if st is not None else "UNSPEC"
+    out[p + "minsize"] = str(st) if st is not None else "UNSPEC"
     for f in v.s.all_named_fields():
         h = v.has(f)
         out[p + f.name + ".has"] = b3(h)
@@ -108,6 +113,24 @@ def dump_struct(v, p, out):
 def observe(module, struct_name, params, data):
     v = refsem.view(module, struct_name, params, data)
     return dump_struct(v, "", {})
+
+
+def check_size_bounds(actual):
+    """[(key, bound, size)] for every reported size lying outside the reported min/max size constants."""
+    bad = []
+    for k, v in actual.items():
+        if k == "size" or k.endswith(".size"):
+            p = k[:-4]
+            try:
+                sz = int(v)
+                mx, mn = actual.get(p + "maxsize"), actual.get(p + "minsize")
+                if mx is not None and sz > int(mx):
+                    bad.append((p + "maxsize", mx, v))
+                if mn is not None and sz < int(mn):
+                    bad.append((p + "minsize", mn, v))
+            except ValueError:
+                continue
+    return bad
 
 
 def _more_known(d):
